@@ -207,6 +207,19 @@ class State:
         self.condfacts.pop(name, None)
         self.cong_forget(name)
 
+    def exact_def(self, name, allowed):
+        """Lin D with  name == D  recorded as a pair of opposite constraints, D over `allowed` atoms only"""
+        for terms, c in self.cons.items():
+            d = dict(terms)
+            if d.get(name) != 1 or len(d) < 2:
+                continue
+            if any(a != name and a not in allowed for a in d):
+                continue
+            neg = tuple(sorted((a, -v) for a, v in d.items()))
+            if self.cons.get(neg) == -c:
+                return Lin({a: -v for a, v in d.items() if a != name}, -c)
+        return None
+
     def havoc_mem(self):
         info = self.info
         self.forget_atoms(lambda a: info.is_mem(a))
@@ -945,6 +958,18 @@ class Analysis:
                 return
             st.havoc_var(nm)
             if rhs_lin is not None:
+                # additionally express the value over parameters where an operand is a plain alias of one (ptr == buf): that
+                # copy of the fact survives later updates of the operand (the original form is kept for the congruences)
+                alt = rhs_lin
+                for a in list(rhs_lin.t):
+                    if a in self.param_names or self.info.is_mem(a) or a == nm:
+                        continue
+                    d_ = st.exact_def(a, self.param_names)
+                    if d_ is not None and d_.c == 0 and len(d_.t) == 1 and list(d_.t.values()) == [1]:
+                        cf_ = alt.t[a]
+                        alt = alt.add(atom(a), -cf_).add(d_, cf_)
+                if alt is not rhs_lin:
+                    st.add_eq(atom(nm), alt)
                 st.add_eq(atom(nm), rhs_lin)
                 if not any(self.info.is_mem(a) for a in rhs_lin.t):
                     st.cong[nm] = (0, rhs_lin)
